@@ -358,6 +358,15 @@ func TDivTrunc(a, b *Term) *Term {
 	if b.IsConst() && b.I == 1 {
 		return a
 	}
+	// (x * c) / c = x
+	if b.IsConst() && a.Op == "*" && len(a.Args) == 2 {
+		if a.Args[1].IsConst() && a.Args[1].I == b.I {
+			return a.Args[0]
+		}
+		if a.Args[0].IsConst() && a.Args[0].I == b.I {
+			return a.Args[1]
+		}
+	}
 	// SMT div is floor for positive divisor (euclidean). Go truncates toward zero.
 	if a.Lo >= 0 && b.Lo > 0 {
 		t := mk("div", SInt, a, b)
